@@ -394,7 +394,8 @@ pub fn follow_exec_child(case: &J) -> i32 {
     let running = Arc::new(AtomicBool::new(true));
     // an interrupter thread: after a short delay it writes a marker line to stdout (println locks stdout, so the marker sits
     // between two records) and clears the flag
-    let interrupter = case["interrupt_delay_us"].as_u64().map(|us| { let r = running.clone(); std::thread::spawn(move || { std::thread::sleep(std::time::Duration::from_micros(us)); println!("#interrupt"); r.store(false, Ordering::SeqCst); }) });
+    let interrupter = case["interrupt_delay_us"].as_u64().map(|us| { let r = running.clone(); std::thread::spawn(move || { std::thread::sleep(std::time::Duration::from_micros(us)); // (the flag first, the marker second: a pause of this thread between the two must not count the records printed meanwhile as "after the interrupt")
+        r.store(false, Ordering::SeqCst); println!("#interrupt"); }) });
     let next = Rc::new(RefCell::new(0usize));
     let (n2, p2) = (next.clone(), path.clone());
     set_follow_eof(Some(Box::new(move || {
